@@ -35,6 +35,9 @@ TOP = {
     "f_set": ("def f{u}(a: set[int]) -> int:\n    return 1\n", [("fun", "f{u}", ["set"])]),
     "f_list2": ("def f{u}(a: list[int, str]) -> int:\n    return 1\n", [("fun", "f{u}", ["list2"])]),
     "f_set2": ("def f{u}(a: set[int, str]) -> int:\n    return 1\n", [("fun", "f{u}", ["set", "set2"])]),
+    # several type arguments that are all the SAME type still are several type arguments (seed C20f counted distinct ones)
+    "f_list2_same": ("def f{u}(a: list[int, int]) -> int:\n    return 1\n", [("fun", "f{u}", ["list2"])]),
+    "f_set2_same": ("def f{u}(a: int) -> set[str, str]:\n    return set()\n", [("fun", "f{u}", ["set", "set2"])]),
     "f_args": ("def f{u}(*args: int) -> int:\n    return 1\n", [("fun", "f{u}", ["variadic"])]),
     "f_kwargs": ("def f{u}(**kwargs: int) -> int:\n    return 1\n", [("fun", "f{u}", ["variadic"])]),
     "f_optpos": ("def f{u}(a: int = 1, /) -> int:\n    return 1\n", [("fun", "f{u}", ["optpos"])]),
